@@ -1,0 +1,17 @@
+//go:build verif
+
+package main
+
+// Contracts for the verification machinery in /verif (comment-only file; compiled
+// only with -tags verif and adds no code).
+
+//@ # ---- C26: argument counts inferred from an argc guard ----
+//@ # Without an MRB_ARGS spec the binding reads its arguments with GET_*_ARG(k); an argument read
+//@ # behind `if (argc >= N)` may be absent.  The emitted signature must therefore make exactly the
+//@ # arguments with index k >= N optional ("?T") and keep the earlier ones required, so that ti
+//@ # accepts N-1 .. max arguments like the C code does.
+//@ func ti/cmd/c2json.inferArguments
+//@   sitesonly
+//@   # (the inferred type names themselves never start with the optional marker)
+//@   loop 1 invariant[C26] forall(k, "int", has(argumentTypesByIndex, k) ==> !strings.HasPrefix(argumentTypesByIndex[k], "?"))
+//@   callsite[C26] append strings.HasPrefix(a_1[0].Type[0], "?") == (minimumRequiredArgc > 0 && currentIndex >= minimumRequiredArgc)
